@@ -6,6 +6,7 @@ server), the exception-escape analysis (E9) of the per-announcement handler
 in got_announcements (DESIGN.md section 5, C34), and that the decoding of the
 claimed key string into the verifying key is one-to-one (C34.7)."""
 from sa.h import *
+from sa.tables import ConstEval
 
 EXPLANATION = (
     "Decided (structural, all paths): (1) introducer.common.unsign_from_foolscap returns only after "
@@ -31,16 +32,20 @@ EXPLANATION = (
     "suffix, removal of a prefix that a startswith() test on every path established, strict encode/decode, the library "
     "decoders, and case folding or lenient decoder flags only on a value that a validator test passed on every path "
     "restricted to an alphabet without a letter in both cases (base32.could_be_base32_encoded: every accepting return "
-    "carries the conjunct `not bytes.translate(s, _, ALPHABET)` with ALPHABET folded to its bytes, and a conjunct "
-    "reading the last character, whose unused low bits base64.b32decode drops silently); strip / case change / "
+    "carries the conjunct `not bytes.translate(s, _, ALPHABET)` with ALPHABET folded to its bytes; and, because "
+    "base64.b32decode - which must itself be preceded by such a validator - drops the unused low bits of the last "
+    "character silently, the validator, const-evaluated by the engine's AST interpreter on key-length (52 character) "
+    "strings that differ only in the last character, accepts no two whose last characters differ only in the 4 bits "
+    "that do not reach the 32 key bytes - this covers the contents of the last-character table s8; when the validator "
+    "cannot be evaluated: every accepting return has a conjunct reading the last character, and a validator whose "
+    "other conjuncts see only len(s) is a violation); strip / case change / "
     "replace / split / re.sub / truncating or unchecked slices are violations. "
     "Not demanded (liveness only, every return is still gated by (1)+(6)): the polarity of the empty / 'v0-' prefix "
     "guards of unsign_from_foolscap and of the isinstance guards of verify_signature, the duplicate shortcut and the "
     "subscribed-service filter of _process_announcement, saving the cache, the introducer server's fan-out. "
     "Undecided: exceptions raised by library code (cryptography key decoding, json, UTF-8 decoding) and implicit "
     "exceptions (KeyError / TypeError on a validly signed announcement that is not a dict with 'service-name') raised "
-    "in _process_announcement outside the per-announcement try, Ed25519 itself; for (7): the contents of the base32 "
-    "last-character table s8 (only that the last character is looked up is decided), whether the library maps "
+    "in _process_announcement outside the per-announcement try, Ed25519 itself; for (7): whether the library maps "
     "different 32-byte strings to one Ed25519 key, that repeated constant padding ('=') stays one-to-one (true while "
     "the pad byte is outside the validated alphabet), and an unchecked prefix slice inside a callee whose caller "
     "established the prefix (reported as ANALYSIS-ERROR, not as a violation).")
@@ -443,6 +448,56 @@ def _case_unique(alphabet):
     return len({x.upper() for x in syms}) == len(syms) and len({x.lower() for x in syms}) == len(syms)
 
 
+# An Ed25519 verifying key is 32 bytes (the library refuses every other length), i.e. 52 base32 characters = 260
+# bits: the low 4 bits of the last character do not reach the key.  base64.b32decode reads the RFC 4648 alphabet.
+_KEY_BYTES = 32
+_KEY_CHARS = -(-_KEY_BYTES * 8 // 5)
+_KEY_SPARE_BITS = _KEY_CHARS * 5 - _KEY_BYTES * 8
+_RFC4648 = b"ABCDEFGHIJKLMNOPQRSTUVWXYZ234567"
+_PURE_BYTES = {"translate": bytes.translate, "maketrans": bytes.maketrans}
+
+
+class _ValidatorEval(ConstEval):
+    """The engine's bounded AST interpreter plus what util.base32 reaches through aliases: the pure class methods
+    bytes.translate / bytes.maketrans as values (`tr=bytes.translate`, `maketrans = bytes.maketrans`) and
+    module-level names bound to such values."""
+
+    def __init__(self, folder, module, cache):
+        ConstEval.__init__(self, folder, module)
+        self.GLOBALS = cache         # folded immutable module-level values, shared by the runs over one tree
+
+    def _global(self, name):
+        vals = self.module.assigns.get(name)
+        if vals and len(vals) == 1:
+            return self.expr(vals[0], {})
+        raise NotConstant(name)
+
+    def _expr(self, e, env):
+        if isinstance(e, ast.Attribute) and isinstance(e.value, ast.Name) and e.value.id == "bytes" \
+                and "bytes" not in env and e.attr in _PURE_BYTES:
+            return _PURE_BYTES[e.attr]
+        if isinstance(e, ast.Name) and e.id not in env and e.id not in self._BUILTINS:
+            key = (self.module.name, e.id)
+            if key not in self.GLOBALS:
+                try:
+                    v = super()._expr(e, env)
+                except NotConstant:
+                    v = self._global(e.id)
+                if not isinstance(v, (bytes, str, int, tuple, frozenset, type(None))):
+                    return v
+                self.GLOBALS[key] = v
+            return self.GLOBALS[key]
+        if isinstance(e, ast.Call):
+            try:
+                return super()._expr(e, env)
+            except NotConstant:
+                f = self.expr(e.func, env)
+                if not any(f is x for x in _PURE_BYTES.values()):
+                    raise
+                return f(*[self.expr(a, env) for a in e.args])
+        return super()._expr(e, env)
+
+
 class KeyLineage:
     def __init__(self, idx, root):
         self.idx = idx
@@ -459,6 +514,7 @@ class KeyLineage:
         self._memo = {}
         self._rets = {}
         self._validators = {}
+        self._vfindings = {}     # validator qual -> [(ast node, message)]: what the validator lets through
 
     # ---- helpers
     def rd(self, fn):
@@ -701,6 +757,13 @@ class KeyLineage:
             lenient += ["extra positional arguments"] if len(e.args) > 1 else []
             data = e.args[0] if e.args else (args[0] if args else None)
             verdict, why = ("ok", "") if not lenient else self._casefold_gate(fn, node, data)
+            if not lenient and tail == "b32decode":
+                # even the strict library decoder drops the unused low bits of the last character: the value must
+                # have passed a validator (which is then examined for its treatment of that character)
+                g = self._casefold_gate(fn, node, data)
+                if g[0] == "no":
+                    self._lossy(fn, e, "`%s` drops the unused low bits of the last character silently and %s" % (
+                        src(fn, e), g[1]))
             if verdict == "ok":
                 self._step(fn, "library decoding `%s(..)`%s" % (name, " (lenient flags without effect: %s)" % why if lenient else ""))
                 self._checkpoint(fn, e, "library decoding")
@@ -790,6 +853,8 @@ class KeyLineage:
         for (V, verdict, why) in verdicts:
             if verdict == "ok":
                 self._checkpoint(V, V.node, "alphabet check")
+                for (nd, msg) in self._vfindings.get(V.qual, ()):
+                    self._lossy(V, nd, msg)
                 return "ok", "%s restricted `%s` to the single-case alphabet %r" % (short(V), recv.id, why)
         for (V, verdict, why) in verdicts:
             if verdict == "no":
@@ -919,6 +984,7 @@ class KeyLineage:
         if not rets:
             return "unknown", "returns nothing"
         alphabet = None
+        structural = []
         loops = any(n.kind == "iter" for n in cfg.nodes) or any(isinstance(x, ast.While) for x in ast.walk(V.node))
         for rn in rets:
             v = rn.ast.value
@@ -943,17 +1009,87 @@ class KeyLineage:
             # base64.b32decode silently drops the unused low bits of the last character: unless the validator
             # constrains that character (beyond alphabet membership), up to 16 spellings decode to one key
             others = [c for c in conj if self._alphabet_of(V, rn, c, p) is None]
-            if not any(self._reads_last(V, rn, c, p) for c in others):
+            if any(self._reads_last(V, rn, c, p) for c in others):
+                structural.append(("ok", rn, ""))
+            else:
+                # a call can hide a look at the last character only if it is given the content of the string
+                # (len(s) is not content: strings of one length differ in their last character)
                 opaque = [x for c in others for x in ast.walk(c)
-                          if isinstance(x, ast.Call) and call_name(x) not in ("len", "ord", "isinstance")]
+                          if isinstance(x, ast.Call) and call_name(x) not in ("len", "ord", "isinstance")
+                          and any(self._sees_content(V, rn, a, p)
+                                  for a in list(x.args) + [k.value for k in x.keywords]
+                                  + ([x.func.value] if isinstance(x.func, ast.Attribute) else []))]
                 if opaque or loops:
-                    return "unknown", "cannot see whether `%s` constrains the last character of `%s`" % (src(V, v), p)
-                return "no", ("no longer constrains the last character of `%s` (`%s`): its unused low bits are dropped by "
-                              "the decoder, so several last characters decode to the same bytes" % (p, src(V, v)))
+                    structural.append(("unknown", rn, "cannot see whether `%s` constrains the last character of `%s`"
+                                       % (src(V, v), p)))
+                else:
+                    structural.append(("no", rn, "accepts `%s` whatever its last character is (`%s`)" % (p, src(V, v))))
             alphabet = found[0]
         if alphabet is None:
             return "unknown", "never accepts"
+        # decided by enumeration where the validator can be const-evaluated; structurally otherwise
+        verdict, node, why = self._last_character(V, alphabet)
+        if verdict is None:
+            for (verdict, node, why) in sorted(structural, key=lambda x: ("no", "unknown", "ok").index(x[0])):
+                break
+        if verdict == "unknown":
+            return "unknown", why
+        if verdict == "no":
+            self._vfindings[V.qual] = [(node.ast if isinstance(node, Node) else node, (
+                "%s no longer constrains the last character of the base32 string: %s; base64.b32decode drops the %d "
+                "unused low bits of the last of the %d characters of a key silently, so up to %d spellings of one key "
+                "verify, each filed under its own name" % (short(V), why, _KEY_SPARE_BITS, _KEY_CHARS,
+                                                             1 << _KEY_SPARE_BITS)))]
         return "ok", alphabet
+
+    def _sees_content(self, V, node, e, p, depth=8):
+        """May the value of `e` depend on the *content* of the parameter p (not only on its length / type)?"""
+        if isinstance(e, ast.Call) and call_name(e) in ("len", "isinstance") and not e.keywords:
+            return False
+        if isinstance(e, ast.Name):
+            if e.id == p:
+                return True
+            if e.id not in self.locals_of(V):
+                return False
+            if self._unchanged_param(V, node, e.id):
+                return False                     # another parameter (a table with a module-level default)
+            rv = self.fnorm(V).resolve(node, e)
+            if rv is e or depth <= 0 or (isinstance(rv, ast.Name) and rv.id == e.id):
+                return True
+            return self._sees_content(V, node, rv, p, depth - 1)
+        return any(self._sees_content(V, node, x, p, depth) for x in ast.iter_child_nodes(e))
+
+    def _last_character(self, V, alphabet):
+        """Run the validator (engine's bounded AST interpreter) on key-length strings that differ only in the last
+        character.  ("no", node, why) when it accepts two whose last characters differ only in bits the decoder
+        drops, ("ok", ..) when it accepts none such, (None, ..) when it cannot be evaluated."""
+        if not isinstance(alphabet, bytes) or not alphabet:
+            return None, None, ""
+        heads = {bytes([alphabet[0]]) * (_KEY_CHARS - 1), bytes([alphabet[-1]]) * (_KEY_CHARS - 1),
+                 (alphabet * _KEY_CHARS)[:_KEY_CHARS - 1]}
+        cache = {}
+        for head in sorted(heads):
+            groups = {}
+            for b in alphabet:
+                last = bytes([b])
+                val = _RFC4648.find(last.upper())
+                if val < 0:
+                    return None, None, ""           # not a character the library decoder knows
+                try:
+                    accepted = _ValidatorEval(self.folder, V.module, cache).call(V, [head + last], {})
+                except NotConstant:
+                    return None, None, ""
+                except RecursionError:
+                    return None, None, ""
+                self.states += 1
+                if accepted:
+                    groups.setdefault(val >> _KEY_SPARE_BITS, []).append(last)
+            for top, lasts in sorted(groups.items()):
+                if len(lasts) > 1:
+                    return "no", V.node, ("it accepts the %d-character strings %r + X for X in %s, which all decode to "
+                                          "the same %d bytes" % (_KEY_CHARS, head, ", ".join(repr(x) for x in lasts),
+                                                                 _KEY_BYTES))
+        return "ok", V.node, ""
 
 
 def _attr_root(e):
